@@ -1,0 +1,80 @@
+//go:build verif
+
+package evaluator
+
+import (
+	"fmt"
+	"math"
+	"sort"
+	"strings"
+)
+
+// This file is compiled only with the "verif" build tag. It exports a
+// read-only structural dump of the evaluator's global scope for the
+// verification harness in /verif. It adds no behaviour.
+
+// VerifGlobals returns one line per global variable (sorted by name):
+// name=<dump>. Every value cell gets an identity #n in order of first
+// encounter, so that sharing between variables, elements and any-boxes
+// is visible; a cell met again is printed as #n^. Numbers are printed as
+// IEEE-754 bit patterns.
+func (e *Evaluator) VerifGlobals() []string {
+	names := make([]string, 0, len(e.global.values))
+	for name := range e.global.values {
+		names = append(names, name)
+	}
+	sort.Strings(names)
+	ids := map[any]int{}
+	out := make([]string, 0, len(names))
+	for _, name := range names {
+		out = append(out, name+"="+verifDump(e.global.values[name], ids))
+	}
+	return out
+}
+
+func verifDump(v value, ids map[any]int) string {
+	if v == nil {
+		return "nil"
+	}
+	var key any = v
+	switch x := v.(type) {
+	case *arrayVal:
+		key = x.Elements
+	case *mapVal:
+		key = x.Order
+	}
+	if id, ok := ids[key]; ok {
+		return fmt.Sprintf("#%d^", id)
+	}
+	id := len(ids) + 1
+	ids[key] = id
+	switch x := v.(type) {
+	case *numVal:
+		bits := math.Float64bits(x.V)
+		if x.V != x.V {
+			bits = 0x7ff8000000000000
+		}
+		return fmt.Sprintf("#%d:num:%d", id, bits)
+	case *stringVal:
+		return fmt.Sprintf("#%d:str:%q", id, x.V)
+	case *boolVal:
+		return fmt.Sprintf("#%d:bool:%v", id, x.V)
+	case *anyVal:
+		return fmt.Sprintf("#%d:any<%s>(%s)", id, x.T.String(), verifDump(x.V, ids))
+	case *arrayVal:
+		parts := make([]string, len(*x.Elements))
+		for i, el := range *x.Elements {
+			parts[i] = verifDump(el, ids)
+		}
+		return fmt.Sprintf("#%d:arr[%s]", id, strings.Join(parts, " "))
+	case *mapVal:
+		parts := make([]string, 0, len(*x.Order))
+		for _, k := range *x.Order {
+			parts = append(parts, fmt.Sprintf("%q:%s", k, verifDump(x.Pairs[k], ids)))
+		}
+		return fmt.Sprintf("#%d:map{%s}", id, strings.Join(parts, " "))
+	case *noneVal:
+		return "none"
+	}
+	return fmt.Sprintf("?%T", v)
+}
